@@ -123,11 +123,12 @@ func New(config ...Config) fiber.Handler {
 		// TODO(allocation optimization): try to minimize the allocation from 2 to 1
 		key := cfg.KeyGenerator(c) + "_" + requestMethod
 
-		// Get entry from pool
-		e := manager.get(key)
-
 		// Lock entry
 		mux.Lock()
+
+		// Get entry from pool. The lookup has to happen under the lock: an entry fetched
+		// earlier may have been expired, invalidated or replaced by a concurrent request.
+		e := manager.get(key)
 
 		// Get timestamp
 		ts := atomic.LoadUint64(&timestamp)
